@@ -543,6 +543,9 @@ expandfunc(struct macro *m)
 	tok = (struct array){0};
 	arg = xreallocarray(NULL, m->nparam, sizeof(*arg));
 	t = rawnext();
+	/* new-lines are white space inside an invocation, also before the ')' of 'F()' */
+	while (m->nparam == 0 && t->kind == TNEWLINE)
+		t = rawnext();
 	for (i = 0; i < m->nparam; ++i) {
 		p = &m->param[i];
 		if (p->flags & PARAMSTR) {
